@@ -34,8 +34,28 @@ Theorem C10_gold_poseidon_conforms_partial : forall inp cap,
        (GoldPoseidon.Hash GoldTables.c GoldTables.s GoldTables.p GoldTables.mcirc GoldTables.mdiag 8 22 12 inp cap).
 Proof. exact gold_poseidon_conforms_partial. Qed.
 
-Theorem C10_round0_constants_published : firstn 12 (GoldPoseidon.C GoldTables.c) = firstn 12 RCstar.
+(* Round 0 of Plonky2's published ALL_ROUND_CONSTANTS (poseidon.rs), written here as
+   literals from the published source (the file is not available offline; these twelve
+   values are the only part of the published table this development can name).  The
+   optimized algorithm leaves round 0 untouched, so they must appear verbatim. *)
+Definition plonky2_round0 : list Z :=
+  [0xb585f766f2144405; 0x7746a55f43921ad7; 0xb2fb0d31cee799b4; 0x0f6760a4803427d7;
+   0xe10d666650f4e012; 0x8cae14cb07d09bf1; 0xd438539c95f63e9f; 0xef781c7ce35b4c3d;
+   0xcdc4a239b0c44426; 0x277fa208bf337bff; 0xe17653a29da578a1; 0xc54302f225db2c76].
+
+Theorem C10_round0_is_published : firstn 12 RCstar = plonky2_round0.
+Proof. vm_compute. reflexivity. Qed.
+
+(* the model's first twelve constants are those of the reference (hence the published ones);
+   all later rows of RCstar were DERIVED from the repository table (see header) *)
+Theorem C10_round0_constants_of_model : firstn 12 (GoldPoseidon.C GoldTables.c) = firstn 12 RCstar.
 Proof. exact gold_first_constants. Qed.
+
+(* the repository's known-answer vectors evaluated on the REFERENCE permutation *)
+Theorem C10_known_answers_on_reference :
+  gold_hash_ref [0;0;0;0;0;0;0;0] [0;0;0;0]
+  = [4330397376401421145; 14124799381142128323; 8742572140681234676; 14345658006221440202].
+Proof. exact gold_kat_zero. Qed.
 
 Print Assumptions C10_mds_is_the_statement_matrix.
 Print Assumptions C10_gold_poseidon_conforms_partial.
